@@ -20,7 +20,7 @@ UpgFew  == {<<>>, << <<"websocket">> >>, << <<"h2c", "WebSocket">> >>, << <<"h2c
 Methods == {"GET", "POST", "HEAD", "get"}
 Protos  == {"1.0", "1.1", "2.0"}
 Versions == {"13", "8", "", "missing"}
-Keys == {"ok16", "ok16spaces", "short", "long", "nonb64", "missing", "twoLines", "empty", "commaJoined", "dec14", "dec15", "dec17", "dec18", "ok16nopad", "ok16urlsafe"}
+Keys == {"ok16", "ok16spaces", "short", "long", "nonb64", "missing", "twoLines", "empty", "commaJoined", "dec14", "dec15", "dec17", "dec18", "ok16nopad", "ok16urlsafe", "ok16noncanon"}
 SubTok == {"a", "b", "A"}
 SubLists == {<<>>} \cup Seq12(SubTok)
 C11Product == { [Base EXCEPT !.method = m, !.proto = p, !.conn = c, !.upg = u, !.version = v, !.key = k] :
@@ -34,8 +34,11 @@ C11Rows == SetToSeq({ [req |-> r, exp |-> AcceptDecision(r)] : r \in C11Set })
 
 (* ------------------------------------------------------------------ C12 *)
 ReqHosts == { [h |-> <<"a",".","c">>, port |-> ""], [h |-> <<"a",".","c">>, port |-> "8080"], [h |-> <<"A",".","c">>, port |-> ""] }
+(* IPv6 literal hosts: brackets are glob-special, colons look like ports *)
+ReqHosts6 == { [h |-> <<"[::1]">>, port |-> "8080"], [h |-> <<"[2001:db8::1]">>, port |-> ""] }
 Hosts == { <<"a",".","c">>, <<"A",".","c">>, <<"b",".","a",".","c">>, <<"b","a",".","c">>,
            <<"a",".","c",".","b",".","c">>, <<"b",".","c">>, <<"a",".","c",".">> }
+Hosts6 == { <<"[::1]">>, <<"[2001:db8::1]">>, <<"1">>, <<"d">>, <<"a",".","c">> }
 Origins ==
   {[form |-> "none"]} \cup
   [form : {"url"}, scheme : {"http", "https", "chrome-extension"}, userinfo : {"", "user", "REQHOST"},
@@ -44,8 +47,11 @@ Origins ==
 Patterns == { <<>>, << <<"a",".","c">> >>, << <<"*",".","a",".","c">> >>, << <<"*","a",".","c">> >>, << <<"b",".","c">> >>,
               << <<"*">> >>, << <<"*",".","c">> >>, << <<"?",".","c">> >>, << <<"[">> >>, << <<"*",".","a",".","c">>, <<"b",".","c">> >>,
               << <<"b",".","c",":","8080">> >>, << <<"B",".","C">> >> }
+Origins6 == [form : {"url"}, scheme : {"http"}, userinfo : {""}, host : Hosts6, port : {"", "8080"}, tail : {"", "/"}]
 C12Rows == SetToSeq({ [o |-> o, rh |-> rh, pats |-> p, skip |-> s, exp |-> AuthDecision(o, rh, p, s)] :
                         o \in Origins, rh \in ReqHosts, p \in Patterns, s \in BOOLEAN })
+           \o SetToSeq({ [o |-> o, rh |-> rh, pats |-> p, skip |-> s, exp |-> AuthDecision(o, rh, p, s)] :
+                        o \in Origins6, rh \in ReqHosts6, p \in Patterns, s \in BOOLEAN })
 
 (* ------------------------------------------------------------------ C14 *)
 P(n, v) == [n |-> n, v |-> v]
@@ -67,7 +73,7 @@ RespAlphabet ==
   { <<>>, <<PMD(<<>>)>>, <<PMD(<<P("client_no_context_takeover", "")>>)>>, <<PMD(<<P("server_no_context_takeover", "")>>)>>,
     <<PMD(<<P("client_no_context_takeover", ""), P("server_no_context_takeover", "")>>)>>,
     <<PMD(<<P("server_max_window_bits", "15")>>)>>, <<PMD(<<P("server_max_window_bits", "10")>>)>>,
-    <<PMD(<<P("client_max_window_bits", "")>>)>>, <<PMD(<<P("client_max_window_bits", "15")>>)>>, <<PMD(<<P("unknown_param", "")>>)>>,
+    <<PMD(<<P("client_max_window_bits", "")>>)>>, <<PMD(<<P("client_max_window_bits", "15")>>)>>, <<PMD(<<P("client_max_window_bits", "10")>>)>>, <<PMD(<<P("unknown_param", "")>>)>>,
     <<PMD(<<P("server_no_context_takeover", ""), P("server_no_context_takeover", "")>>)>>,
     << [name |-> "x-foo", params |-> <<>>] >>, <<PMD(<<>>), PMD(<<>>)>>, << [name |-> "x-foo", params |-> <<>>], PMD(<<>>) >> }
 (* a response is compliant towards THIS client's offer if it does not drop a no-takeover flag the offer carried; *)
@@ -82,7 +88,8 @@ RUpg  == {<<>>, << <<"websocket">> >>, << <<"WebSocket">> >>, << <<"h2c">> >>}
 C13Set == { [resp |-> [status |-> st, conn |-> c, upg |-> u, accept |-> a, sub |-> sb, ext |-> x], requested |-> rq, mode |-> m] :
                       st \in {101, 200, 400, 500}, c \in RConn, u \in RUpg, a \in {"correct", "otherkey", "missing", "casechanged"},
                       sb \in {"", "a", "b", "A"}, rq \in {<<>>, <<"a">>, <<"a", "b">>},
-                      x \in (IF Big THEN RespAlphabet ELSE {<<>>, <<PMD(<<>>)>>, << [name |-> "x-foo", params |-> <<>>] >>, <<PMD(<<P("unknown_param", "")>>)>>}),
+                      x \in (IF Big THEN RespAlphabet ELSE {<<>>, <<PMD(<<>>)>>, << [name |-> "x-foo", params |-> <<>>] >>, <<PMD(<<P("unknown_param", "")>>)>>,
+                                               <<PMD(<<P("client_max_window_bits", "15")>>)>>, <<PMD(<<P("client_max_window_bits", "10")>>)>>, <<PMD(<<P("server_max_window_bits", "10")>>)>>}),
                       m \in (IF Big THEN Modes ELSE {"off", "ct"}) }
 C13Rows == SetToSeq({ [resp |-> r.resp, requested |-> r.requested, mode |-> r.mode, exp |-> VerifyResponse(r.resp, r.requested, r.mode)] : r \in C13Set })
 
@@ -119,7 +126,7 @@ Next == UNCHANGED x
 RowInv ==
   CASE Mode = "c11" ->
          LET d == AcceptDecision(x) IN
-         /\ d.upgrade => x.method = "GET" /\ x.proto # "1.0" /\ x.version = "13" /\ x.key \in {"ok16", "ok16spaces"}
+         /\ d.upgrade => x.method = "GET" /\ x.proto # "1.0" /\ x.version = "13" /\ KeyOK(x.key)
          /\ (d.sub # "" => \E i \in 1..Len(x.offered) : x.offered[i] = d.sub)
          /\ (d.upgrade /\ d.sub # "" =>
                \E i \in 1..Len(x.supported) : /\ EqFold(x.supported[i], d.sub)
